@@ -113,6 +113,8 @@ def _simp(node, ctx):
             setattr(node, fld, [_simp(v, ctx) if isinstance(v, ast.AST) else v for v in val])
     if isinstance(node, ast.Call):
         fn = norm(node.func)
+        if isinstance(node.func, ast.Attribute) and node.func.attr in ("tolist", "copy") and not node.args and not node.keywords:
+            return node.func.value
         if fn in _ARRAY_FUNCS and len(node.args) == 1 and all(k.arg in ("dtype", "copy") for k in node.keywords):
             return node.args[0]
         if isinstance(node.func, ast.Name) and len(node.args) == 1 and not node.keywords:
